@@ -54,21 +54,32 @@ def pump(cf):
     raise AssertionError('dispatcher loop returned')
 
 
+def _toc_cache_of(cf):
+    c = getattr(cf, '_toc_cache', None)
+    if c is None:
+        from cflib.crazyflie.toccache import TocCache
+        c = TocCache()
+    return c
+
+
 def connect_log(dev):
     """Real Crazyflie + SeqLink; runs the real platform-version and log-TOC handshake."""
     from cflib.crazyflie import Crazyflie, State
     from cflib.crtp.crtpstack import CRTPPacket
     cf = Crazyflie()
     # let the idle parameter-updater daemon thread of this object end (thousands of objects are built per run)
-    upd = cf.param.param_updater
-    upd._should_close = True
-    upd.request_queue.put(CRTPPacket())
-    upd.join(2.0)
+    try:
+        upd = cf.param.param_updater
+        upd._should_close = True
+        upd.request_queue.put(CRTPPacket())
+        upd.join(2.0)
+    except AttributeError:
+        pass        # private names changed: the idle daemon thread simply stays
     link = SeqLink(dev)
     cf.link = link
     cf.state = State.CONNECTED
     done = []
-    cf.platform.fetch_platform_informations(lambda: cf.log.refresh_toc(lambda: done.append(1), cf._toc_cache))
+    cf.platform.fetch_platform_informations(lambda: cf.log.refresh_toc(lambda: done.append(1), _toc_cache_of(cf)))
     pump(cf)
     if not done:
         raise AssertionError('log TOC download did not finish')
